@@ -214,7 +214,7 @@ func genVhostCases(t *testing.T, c *vlib.Collector, id int, seed uint64) int {
 			}
 		}
 		c.Add(vlib.Case{ID: id, Term: term, Tags: tags, Trivial: len(sc.VSs) == 0,
-			Sample: map[string]any{"scenario": sc, "requests": len(reqs), "vhosts": len(vhosts)}})
+			Sample: map[string]any{"scenario": sc, "requests": reqs, "vhosts": len(vhosts)}})
 		id++
 	}
 	return id
